@@ -811,6 +811,10 @@ def complex_cases(rng, tier):
     add("linalg.det", "complex 2x2", (lambda m, a: m.linalg.det(a)), [cm], [0], False)
     add("linalg.slogdet", "complex logabsdet", (lambda m, a: m.linalg.slogdet(a)[1]), [cm], [0], False)
     add("linalg.slogdet", "complex batch logabsdet", (lambda m, a: m.linalg.slogdet(a)[1]), [onp.stack([cm, cm * (1 + 0.5j) + onp.eye(2)])], [0], False)
+    # (for a complex matrix the sign det/|det| moves with the matrix)
+    add("linalg.slogdet", "complex sign", (lambda m, a: m.linalg.slogdet(a)[0]), [cm], [0], False)
+    add("linalg.slogdet", "complex sign and logabsdet together", (lambda m, a: m.linalg.slogdet(a)[0] * (1.0 - 2.0j) + m.linalg.slogdet(a)[1]), [cm], [0], False)
+    add("linalg.slogdet", "complex batch sign", (lambda m, a: m.linalg.slogdet(a)[0]), [onp.stack([cm, cm * (1 + 0.5j) + onp.eye(2)])], [0], False)
     add("linalg.solve", "complex", (lambda m, a, b: m.linalg.solve(a, b)), [cm, cb], [0, 1], False)
     add("linalg.solve", "complex matrix, real rhs", (lambda m, a, b: m.linalg.solve(a, b)), [cm, distinct(rng, (2, 2))], [0, 1], False)
     add("linalg.eigh", "Hermitian eigenvalues", (lambda m, a: m.linalg.eigh((a + m.conj(m.swapaxes(a, -1, -2))) / 2)[0]), [herm], [0], False)
